@@ -77,13 +77,13 @@ struct RejTable {
             // subgraphs: a bad member of S
             add("getSubgraph", 1, true, P_RANGE, [](G &g, unsigned a, unsigned b, bool f, const L &) {
                 std::unordered_set<VertexIndex> s;
-                if (f && g.getSize() > 0) s.insert(b % (unsigned)g.getSize());
+                if (f) for (unsigned i = 0; i < g.getSize(); ++i) if (i % 3 != 1 || i == b) s.insert(i); // a large valid set plus the bad member
                 s.insert(a);
                 (void)alg::getSubgraph(g, s);
             });
             add("getSubgraphWithRemap", 1, true, P_RANGE, [](G &g, unsigned a, unsigned b, bool f, const L &) {
                 std::unordered_set<VertexIndex> s;
-                if (f && g.getSize() > 0) s.insert(b % (unsigned)g.getSize());
+                if (f) for (unsigned i = 0; i < g.getSize(); ++i) if (i % 3 != 1 || i == b) s.insert(i); // a large valid set plus the bad member
                 s.insert(a);
                 (void)alg::getSubgraphWithRemap(g, s);
             });
